@@ -243,7 +243,7 @@ class Gen:
         if origin is tuple:
             return tuple(self.of_type(a) for a in args)
         if origin is list:
-            return [self.of_type(args[0]) for _ in range(r.choice([0, 1, 2, 3]))]
+            return [self.of_type(args[0]) for _ in range(r.choice([0, 1, 2, 3, 3, 2, 1, 24 if self.depth < 3 else 2]))]
         if origin is dict:
             return {self.of_type(args[0]): self.of_type(args[1]) for _ in range(r.randint(0, 2))}
         if origin in (OrderedSet, NonEmptyOrderedSet):
@@ -348,7 +348,126 @@ def to_pv(x, opaque, declared_any=False):
     raise ValueError('to_pv: ' + repr(type(x)))
 
 
+def skip_item(bs, pos):
+    """own length-walking CBOR skipper (no cbor2): returns the position after the item starting at pos"""
+    ib = bs[pos]; major, ai = ib >> 5, ib & 31
+    pos += 1
+    if ai < 24:
+        arg = ai
+    elif ai in (24, 25, 26, 27):
+        n = 1 << (ai - 24); arg = int.from_bytes(bs[pos:pos + n], 'big'); pos += n
+    elif ai == 31:
+        arg = None
+    else:
+        raise ValueError('bad additional info')
+    if major in (0, 1, 7):
+        return pos
+    if major in (2, 3):
+        if arg is None:
+            while bs[pos] != 0xff:
+                pos = skip_item(bs, pos)
+            return pos + 1
+        return pos + arg
+    if major in (4, 5):
+        if arg is None:
+            while bs[pos] != 0xff:
+                pos = skip_item(bs, pos)
+                if major == 5:
+                    pos = skip_item(bs, pos)
+            return pos + 1
+        for _ in range(arg * (2 if major == 5 else 1)):
+            pos = skip_item(bs, pos)
+        return pos
+    if major == 6:
+        return skip_item(bs, pos)
+    raise ValueError('major')
+
+
+def walk(bs, pos, feats):
+    """structural walk (no cbor2): records tag-258 sets and indefinite-length arrays, also inside tag-24 embedded CBOR"""
+    ib = bs[pos]; major, ai = ib >> 5, ib & 31
+    pos += 1
+    if ai < 24:
+        arg = ai
+    elif ai in (24, 25, 26, 27):
+        n = 1 << (ai - 24); arg = int.from_bytes(bs[pos:pos + n], 'big'); pos += n
+    elif ai == 31:
+        arg = None
+    else:
+        raise ValueError('bad additional info')
+    if major in (0, 1, 7):
+        return pos, None
+    if major in (2, 3):
+        if arg is None:
+            feats.add('chunked-bytes')
+            while bs[pos] != 0xff:
+                pos, _ = walk(bs, pos, feats)
+            return pos + 1, None
+        return pos + arg, (bs[pos:pos + arg] if major == 2 else None)
+    if major in (4, 5):
+        if arg is None:
+            feats.add('indefinite-list' if major == 4 else 'indefinite-map')
+            while bs[pos] != 0xff:
+                pos, _ = walk(bs, pos, feats)
+                if major == 5:
+                    pos, _ = walk(bs, pos, feats)
+            return pos + 1, ('n', 99)
+        for _ in range(arg * (2 if major == 5 else 1)):
+            pos, _ = walk(bs, pos, feats)
+        return pos, ('n', arg)
+    if major == 6:
+        end, inner = walk(bs, pos, feats)
+        if arg == 258:
+            feats.add('tagged-set')
+            if isinstance(inner, tuple) and inner[1] >= 2:
+                feats.add('tagged-set-2plus')
+        if arg == 24 and isinstance(inner, (bytes, bytearray)) and inner:
+            try:
+                walk(bytes(inner), 0, feats)
+            except Exception:
+                pass
+        return end, None
+    raise ValueError('major')
+
+
+def features(bs):
+    feats = set()
+    walk(bs, 0, feats)
+    return sorted(feats)
+
+
+def c03_case(case, payload):
+    import hashlib
+    g = Gen(case['seed'], [])
+    tx = None
+    for attempt in range(8):
+        try:
+            tx = g.make(Transaction)
+            bs = tx.to_cbor()
+            break
+        except Exception as e:
+            tx = None; last = f'{type(e).__name__}: {e}'
+    if tx is None:
+        return {'skip': last}
+    start = 1 if bs[0] < 0x98 else 2
+    end = skip_item(bs, start)
+    body = bs[start:end]
+    out = {'tx': bs.hex(), 'body_start': start, 'body_end': end, 'features': features(body), 'flags': g.flags,
+           'expected_id': hashlib.blake2b(body, digest_size=32).hexdigest()}
+    try:
+        t = Transaction.from_cbor(bs)
+        out['decode'] = 'ok'
+        out['body_reenc'] = t.transaction_body.to_cbor().hex()
+        out['id'] = t.id.payload.hex()
+        out['tx_reenc_same'] = t.to_cbor() == bs
+    except Exception as e:
+        out['decode'] = err_kind(e); out['decode_msg'] = str(e)[:120]
+    return out
+
+
 def handler(case, payload):
+    if case.get('mode') == 'c03':
+        return c03_case(case, payload)
     opaque = payload['opaque']
     cls = CLASSES[case['cls']]
     g = Gen(case['seed'], opaque)
